@@ -143,6 +143,7 @@ def _parts(src, n, extra=()):
 
 SERVERS = {
     "c01": dict(units=_parts("srv_c01.cpp", 8)),
+    "rearrange": dict(units=[("srv_views_main.cpp", [])] + _parts("ops_rearrange.cpp", 5)),
 }
 
 
